@@ -467,7 +467,6 @@ class Channel(BaseChannel):
         :rtype: tuple,None
         """
         basic_deliver = self._inbound.popleft()
-        content_header = self._inbound.popleft()
         if not isinstance(basic_deliver, specification.Basic.Deliver):
             LOGGER.warning(
                 'Received an out-of-order frame: %s was '
@@ -475,7 +474,8 @@ class Channel(BaseChannel):
                 type(basic_deliver)
             )
             return None
-        elif not isinstance(content_header, ContentHeader):
+        content_header = self._inbound.popleft()
+        if not isinstance(content_header, ContentHeader):
             LOGGER.warning(
                 'Received an out-of-order frame: %s was '
                 'expecting a ContentHeader frame',
